@@ -15,7 +15,7 @@ the theorems of coq/C05 about it stop proving.  Fail closed: any statement or at
 TranslateError.
 """
 import ast, sys, inspect, importlib, textwrap
-from .pyexpr import BoolTranslator, TranslateError, find_function, attr_chain, TRUE, FALSE
+from .pyexpr import BoolTranslator, TranslateError, find_function, attr_chain, body_as_expr, TRUE, FALSE
 
 
 def _doc_or_log(s):
@@ -174,15 +174,12 @@ def tr_enum(enum_mod, inbase, xml, mbase):
     out = []
     # EnumBase.validate_string: a single return expression
     fn = _fn(enum_mod, ['EnumBase', 'validate_string'])
-    body = [s for s in fn.body if not _doc_or_log(s)]
-    if len(body) != 1 or not isinstance(body[0], ast.Return):
-        raise TranslateError('EnumBase.validate_string: body is not a single return')
+    vs_expr = body_as_expr(fn)
     if 'validate_string' in enum_mod.SimpleModel.__dict__ or getattr(enum_mod, 'SimpleModel') is not mbase.SimpleModel:
         raise TranslateError('SimpleModel.validate_string is not the one of ModelBase')
     mb = _fn(mbase, ['ModelBase', 'validate_string'])
-    mb_body = [s for s in mb.body if not _doc_or_log(s)]
-    want = ast.parse('return (cls.Attributes.nillable or value is not None)').body[0]
-    if len(mb_body) != 1 or ast.dump(mb_body[0]) != ast.dump(want):
+    want = ast.parse('(cls.Attributes.nillable or value is not None)').body[0].value
+    if ast.dump(body_as_expr(mb)) != ast.dump(want):
         raise TranslateError('ModelBase.validate_string: unexpected body')
     for mode in ('val', 'none'):
         def leaf(n, mode=mode):
@@ -194,7 +191,7 @@ def tr_enum(enum_mod, inbase, xml, mbase):
                 t = '(existsb (text_eqb v) values)' if mode == 'val' else FALSE      # None is not in a tuple of strings
                 return t if isinstance(n.ops[0], ast.In) else ('(negb %s)' % t if t != FALSE else TRUE)
             return None
-        text = _bool(leaf).tr(body[0].value)
+        text = _bool(leaf).tr(vs_expr)
         if mode == 'val':
             out.append('Definition enum_vs (nillable : bool) (values : list text) (v : text) : bool :=\n  %s.\n' % text)
         else:
